@@ -11,6 +11,7 @@ import (
 	"math/rand"
 	"os"
 	"path/filepath"
+	"regexp"
 	"strings"
 	"sync"
 
@@ -327,6 +328,7 @@ func checkC01(c *Ctx) {
 	c.Traces(int64(len(items)))
 	c.Set("link_snippets", len(items))
 	validateLink(c, items)
+	c01Dirs(c)
 	c.Set("rule", "case = one gofmt-canonical file through one entry point (bytes compared), or one declaration snippet whose fragment list and attachments are validated by TLC against Link.tla; non-trivial = the input contains comments; distinct by path+entry / snippet text")
 }
 
@@ -468,4 +470,160 @@ func unindentLineDirectives(b []byte) string {
 		}
 	}
 	return strings.Join(lines, "\n")
+}
+
+// ---- directories with several files of one package ----
+
+var pkgClauseRE = regexp.MustCompile(`(?m)^package [A-Za-z_][A-Za-z0-9_]*`)
+
+// dirHandFiles: canonical files whose comments stand at the very start / end of the file, with
+// multi-line comments and raw strings at different line numbers.
+var dirHandFiles = []string{
+	"// Package p doc.\npackage p\n\nfunc A() {}\n\n// trailing comment of a\n",
+	"// leading comment of b\n\npackage p\n\n/* block\n   comment */\nfunc B() {\n\tx()\n\n\ty()\n}\n\n// end of b\n",
+	"package p\n\nvar C = 1\n\nvar D = 2\n\nvar E = 3\n",
+	"package p\n\n/*\nfive\nline\ncomment\n*/\n\nvar F = `raw\n\nstring`\n\nfunc G() {\n\n\tg()\n\n}\n",
+	"package p // on the clause\n\nimport \"fmt\"\n\n// H prints.\nfunc H() {\n\tfmt.Println() // trailing\n\n\t// hanging\n}\n\n/* last */\n",
+	"/* first */\npackage p\n\ntype T struct {\n\tA int\n\n\tB int // b\n}\n",
+}
+
+// runDir writes the sources as f0.go, f1.go ... into a fresh directory, parses it with ParseDir and
+// prints every file.
+func runDir(srcs [][]byte) ([][]byte, string) {
+	dir, err := os.MkdirTemp("", "dstv-dir-")
+	if err != nil {
+		return nil, "harness: " + err.Error()
+	}
+	defer os.RemoveAll(dir)
+	for i, s := range srcs {
+		if err := os.WriteFile(filepath.Join(dir, fmt.Sprintf("f%d.go", i)), s, 0644); err != nil {
+			return nil, "harness: " + err.Error()
+		}
+	}
+	out := make([][]byte, len(srcs))
+	var perr error
+	msg := guard(func() {
+		pkgs, err := decorator.ParseDir(token.NewFileSet(), dir, nil, 0)
+		if err != nil {
+			perr = err
+			return
+		}
+		for _, p := range pkgs {
+			for fn, f := range p.Files {
+				var i int
+				fmt.Sscanf(filepath.Base(fn), "f%d.go", &i)
+				var buf bytes.Buffer
+				if err := decorator.Fprint(&buf, f); err != nil {
+					perr = err
+					return
+				}
+				out[i] = buf.Bytes()
+			}
+		}
+	})
+	if msg != "" {
+		return nil, msg
+	}
+	if perr != nil {
+		return nil, "error: " + perr.Error()
+	}
+	return out, ""
+}
+
+// dirCases builds directories of 2-4 canonical files of one package from the hand-written files and
+// small corpus files (package clause renamed).
+func dirCases(c *Ctx, n int, r *rand.Rand) [][][]byte {
+	var pool [][]byte
+	for _, s := range dirHandFiles {
+		pool = append(pool, []byte(s))
+	}
+	for _, f := range corpus(c, 60) {
+		if len(f.Src) > 12000 || !isCanonical(f.Src) || bytes.Contains(f.Src, []byte("//go:build")) || bytes.Contains(f.Src, []byte("+build")) {
+			continue
+		}
+		s := pkgClauseRE.ReplaceAll(f.Src, []byte("package p"))
+		if isCanonical(s) {
+			pool = append(pool, s)
+		}
+	}
+	var out [][][]byte
+	// every ordered pair of the hand-written files, then random groups
+	for i := range dirHandFiles {
+		for j := range dirHandFiles {
+			if i != j {
+				out = append(out, [][]byte{pool[i], pool[j]})
+			}
+		}
+	}
+	for len(out) < n {
+		k := 2 + r.Intn(3)
+		var g [][]byte
+		for j := 0; j < k; j++ {
+			g = append(g, pool[r.Intn(len(pool))])
+		}
+		out = append(out, g)
+	}
+	return out
+}
+
+func c01Dirs(c *Ctx) {
+	n := 80
+	if !c.Quick() {
+		n = 1200
+	}
+	cases := dirCases(c, n, rand.New(rand.NewSource(c.Seed+11)))
+	type res struct {
+		out [][]byte
+		msg string
+	}
+	rs := make([]res, len(cases))
+	parallel(len(cases), func(i int) { rs[i].out, rs[i].msg = runDir(cases[i]) })
+	for i, cs := range cases {
+		var hs []string
+		for _, s := range cs {
+			hs = append(hs, shortHash(string(s)))
+		}
+		key := "dir|" + strings.Join(hs, "+")
+		c.Eval(key, true)
+		var srcs []string
+		for _, s := range cs {
+			srcs = append(srcs, string(s))
+		}
+		if strings.HasPrefix(rs[i].msg, "harness:") {
+			c.Infra(rs[i].msg)
+			return
+		}
+		if rs[i].msg != "" {
+			c.Fail(Finding{Sig: "roundtrip-fails", Input: key, What: "ParseDir on a directory of " + fmt.Sprint(len(cs)) + " files: " + rs[i].msg, Replay: obj{"kind": "c01dir", "srcs": srcs}})
+			continue
+		}
+		for j := range cs {
+			if !bytes.Equal(rs[i].out[j], cs[j]) {
+				c.Fail(Finding{Sig: "roundtrip-bytes-differ", Input: key, What: fmt.Sprintf("ParseDir on a directory of %d files, file f%d.go: %s", len(cs), j, diffAt(cs[j], rs[i].out[j])), Replay: obj{"kind": "c01dir", "srcs": srcs}})
+				break
+			}
+		}
+	}
+	c.Set("directories", len(cases))
+}
+
+func init() {
+	replayers["c01dir"] = func(raw json.RawMessage) string {
+		var r struct{ Srcs []string }
+		json.Unmarshal(raw, &r)
+		var cs [][]byte
+		for _, s := range r.Srcs {
+			cs = append(cs, []byte(s))
+		}
+		out, msg := runDir(cs)
+		if msg != "" {
+			return msg
+		}
+		for j := range cs {
+			if !bytes.Equal(out[j], cs[j]) {
+				return fmt.Sprintf("file f%d.go: %s", j, diffAt(cs[j], out[j]))
+			}
+		}
+		return ""
+	}
 }
